@@ -362,4 +362,8 @@ theorem sampleFile_wf : sampleFile.wf 2 := by
 example : decode 2 (encode (some sampleFile) ++ [1, 2, 3]) = some (some sampleFile, [1, 2, 3]) :=
   roundtrip_nonempty 2 sampleFile sampleFile_wf [1, 2, 3]
 
+
+/-- `Metadata.Validate` and the length fields `Save` writes agree on the unit: bytes (regenerated) -/
+theorem metadata_limits_are_byte_lengths : Generated.metadataLimitsAreByteLengths = true := by decide
+
 end Anndb.C08
